@@ -9,7 +9,9 @@ from props.strings import record_events, judge
 def assembled_texts(rnd, n):
     fill = [" ", "\n", ". ", ", ", " (", ") ", "x", ":", "/", "1", "3.1", "CVSS:", "CVSS:3.", " see ", "score 7.5 ", "\t", "é", "=",
             # delimiters outside [A-Za-z:/] that a careless character class could take for letters
-            "\u212a", "\u017f", "\u0130", "\u0131", "\uff21", "\uff5a", "\u00df", "\u0391", "_", "-", "0", "9", "\x00", "\u200b"]
+            "\u212a", "\u017f", "\u0130", "\u0131", "\uff21", "\uff5a", "\u00df", "\u0391", "_", "-", "0", "9", "\x00", "\u200b",
+            # code points that text pipelines drop, replace or fold: lone surrogates (surrogateescape), BOM, soft hyphen, joiners, bidi marks, NEL / LS / PS
+            "\udc80", "\ud800", "\udfff", "\ufeff", "\u00ad", "\u200d", "\u200e", "\u202e", "\u0085", "\u2028", "\u2029", "\ufffd", "\x7f", "\x1b", "\x0b", "\x0c", "\r"]
     out = []
     for _ in range(n):
         parts = []
@@ -83,10 +85,11 @@ def run(prop, tier, seed):
             for v in corpus.extremal_vectors(rnd, ver):
                 ext += [v[3], "x " + v[3] + " y", "(" + v[3] + ")", v[3] + "\n" + v[3], v[3] + "x", "CVSS:" + v[3]]
         # every special delimiter directly before and after valid vectors
-        for dl in ["\u212a", "\u017f", "\u0130", "\u0131", "\uff21", "\uff5a", "\u00df", "_", "-", "7", "\x00", "\u200b", "\u0661"]:
+        for dl in ["\u212a", "\u017f", "\u0130", "\u0131", "\uff21", "\uff5a", "\u00df", "_", "-", "7", "\x00", "\u200b", "\u0661",
+                   "\udc80", "\ud800", "\udfff", "\ufeff", "\u00ad", "\u200d", "\u200e", "\u202e", "\u0085", "\u2028", "\u2029", "\ufffd", "\x7f", "\x1b", "\x0b", "\x0c", "\r"]:
             for ver in "23":
                 s_ = corpus.random_vector(rnd, ver)[3]
-                ext += [dl + s_, s_ + dl, "300" + dl + s_ + dl + "ok"]
+                ext += [dl + s_, s_ + dl, "300" + dl + s_ + dl + "ok", "advisory" + dl + s_ + dl + "end", s_[:len(s_) // 2] + dl + s_[len(s_) // 2:], s_.replace("/", dl + "/", 1)]
         ext += [x for v in corpus.prefix_variants(rnd) for x in (v, "see " + v + ".")]
         ext += pattern_texts(rnd, 6 if not big else 60)
         texts = gen + ext + assembled_texts(rnd, 4000 if not big else 80000) + corpus.arbitrary_text(rnd, 1500 if not big else 20000)
